@@ -1,23 +1,22 @@
-/- C20 driver: op lines in, observable lines out (same format as props/C20/harness.cpp). -/
+/- C20 driver: trace acceptor.  Input per case: op lines, then the implementation's output lines
+prefixed "T ", then "end".  Every API result / isEnabled+remainSeconds vector / next-instant value
+the implementation printed must be what the model computes; every callback line `F j <state>` must
+be a `fire j` step the model allows (timer armed, due, no earlier deadline armed), the state the
+callback sees must agree, callback scripts are then run on the model; a pass may only end when no
+armed timer is due.  Prints `ok …` or `reject <reason>` (+ a `B` line of branch tags). -/
 import TboxModel.Util
-import TboxModel.C20.Model
+import TboxModel.C20.WModel
+import TboxModel.C20.Cron
 open Tbox.Util Tbox.C20
 
-structure World where
-  wallMs : Nat := 1700000000000
-  monoMs : Nat := 0
-  cal : Calendar := {}
-  slots : List (Option Alarm) := [none, none, none, none]
-
-def World.env (w : World) : Env := { wallMs := w.wallMs, monoMs := w.monoMs, cal := w.cal }
-
 def maxWallMs : Nat := 4294967295999
+def far : Nat := 4294967
+def cronHorizon : Nat := 4000
 
 def slot? (s : String) : Option Nat := do
   let i ← s.toNat?
   if i < 4 then some i else none
 
-/-- mask token: characters 0/1/x, "-" = empty string -/
 def mask? (s : String) : Option (List Bool) :=
   if s == "-" then some [] else
   if s.length ≤ 9 ∧ s.toList.all (fun c => c == '0' || c == '1' || c == 'x') then some (s.toList.map (· == '1')) else none
@@ -25,17 +24,61 @@ def mask? (s : String) : Option (List Bool) :=
 def bool? (s : String) : Option Bool :=
   if s == "1" then some true else if s == "0" then some false else none
 
+/-- decimal without sign, underscores or leading zeros, at most 18 digits -/
+def num? (s : String) : Option Nat :=
+  if s.isEmpty ∨ s.length > 18 ∨ !s.toList.all Char.isDigit then none
+  else if s.length > 1 ∧ s.startsWith "0" then none else s.toNat?
+
 def bounded? (s : String) (hi : Nat) : Option Nat := do
-  let n ← s.toNat?
+  let n ← num? s
   if n ≤ hi then some n else none
 
-/-- special days: "-" or "day:0|1,day:0|1…" (first entry of a day wins) -/
-def specials? (s : String) : Option (List (Nat × Bool)) :=
+def int? (s : String) : Option Int :=
+  if s.startsWith "-" then (num? (s.drop 1).toString).map (fun n => - (Int.ofNat n)) else (num? s).map Int.ofNat
+
+def specialsSep? (s : String) (sep : String) : Option (List (Nat × Bool)) :=
   if s == "-" then some [] else
-  (s.splitOn ",").mapM fun item =>
+  (s.splitOn sep).mapM fun item =>
     match item.splitOn ":" with
     | [d, b] => do pure ((← bounded? d 100000), (← bool? b))
     | _ => none
+
+/-- callback script: "-" or items "rf<j>" "dis<j>" "en<j>" "del<j>" "cm<mask>" "cs<day:b+day:b|->" joined by ',' -/
+def act? (self : Nat) (s : String) : Option Act :=
+  if s.startsWith "rf" then (slot? (s.drop 2).toString).map .refresh
+  else if s.startsWith "dis" then (slot? (s.drop 3).toString).map .disable
+  else if s.startsWith "en" then (slot? (s.drop 2).toString).map .enable
+  else if s.startsWith "del" then do
+    let j ← slot? (s.drop 3).toString
+    if j = self then none else some (.destroy j)
+  else if s.startsWith "cm" then (bounded? (s.drop 2).toString 255).map .calMask
+  else if s.startsWith "cs" then (specialsSep? (s.drop 2).toString "+").map .calSp
+  else none
+
+def script? (self : Nat) (s : String) : Option (List Act) :=
+  if s == "-" then some [] else
+  let items := s.splitOn ","
+  if items.length > 6 then none else items.mapM (act? self)
+
+/-! cron fields -/
+def cronNum? (s : String) : Option Nat := bounded? s 999
+
+def cronRange? (s : String) : Option Cron.Range :=
+  if s == "*" then some .star else
+  match s.splitOn "-" with
+  | [n] => (cronNum? n).map .one
+  | [a, b] => do pure (.span (← cronNum? a) (← cronNum? b))
+  | _ => none
+
+def cronItem? (s : String) : Option Cron.Item :=
+  match s.splitOn "/" with
+  | [r] => (cronRange? r).map fun r => { range := r }
+  | [r, d] => do pure { range := (← cronRange? r), step := some (← cronNum? d) }
+  | _ => none
+
+def cronField? (s : String) : Option (List Cron.Item) :=
+  let items := s.splitOn ","
+  if items.length > 6 ∨ s.length > 40 then none else items.mapM cronItem?
 
 def showNext : Option Nat → String
   | some r => "P next=" ++ toString r
@@ -51,149 +94,214 @@ def showSlot (e : Env) : Option Alarm → String
 def stateLine (w : World) (ret : Bool) : String :=
   "P ret=" ++ (if ret then "1" else "0") ++ " " ++ " ".intercalate (w.slots.map (showSlot w.env))
 
-def getSlot (w : World) (i : Nat) : Option Alarm := (w.slots.getD i none)
-def setSlot (w : World) (i : Nat) (a : Alarm) : World := { w with slots := w.slots.set i (some a) }
-
-def far : Nat := 4294967
-
-def armTags (before after : Alarm) (e : Env) : List String :=
-  if after.st = .running ∧ (before.st ≠ .running ∨ before.target ≠ after.target) then
-    let r := remainSeconds after e
-    [if r > far then "arm-far" else if r > 86400 then "arm-days" else "arm-near"]
-  else []
-
-/-- the loop pass after a clock change: every slot's timer is looked at; callback lines sorted by slot -/
-def pass (w : World) : World × List String × List String :=
-  let e := w.env
-  let rec go (i : Nat) (sl : List (Option Alarm)) : List (Option Alarm) × List String × List String :=
-    match sl with
-    | [] => ([], [], [])
-    | none :: rest => let (r, l, t) := go (i + 1) rest; (none :: r, l, t)
-    | some a :: rest =>
-      let (a', evs) := tick a e tickFuel
-      let lines := if a.hasCb then evs.map (fun p => "F " ++ toString i ++ " " ++ showSlot e (some p.2.2)) else []
-      let tags := evs.map (fun p => if e.sec < p.1 then "fire-early" else if e.sec > p.1 then "fire-late" else "fire-on-time")
-        ++ (if evs.length > 1 then ["fire-multi"] else [])
-        ++ (evs.flatMap fun p => if p.2.2.st = .running then (if remainSeconds p.2.2 e > far then ["rearm-far"] else ["rearm"]) else ["no-rearm"])
-      let (r, l, t) := go (i + 1) rest
-      (some a' :: r, lines ++ l, tags ++ t)
-  let (sl, lines, tags) := go 0 w.slots
-  ({ w with slots := sl }, lines, tags)
-
-def withTags (tags : List String) (lines : List String) : List String :=
-  (if tags.isEmpty then [] else ["B " ++ " ".intercalate tags.eraseDups]) ++ lines
-
-def clockOp (w : World) : World × List String :=
-  let (w', lines, tags) := pass w
-  (w', withTags tags (lines ++ [stateLine w' true]))
-
-def calUpdate (w : World) (cal : Calendar) : World × List String :=
-  let w1 := { w with cal := cal }
-  let e := w1.env
-  let sl := w1.slots.map (fun o => o.map (fun a => calendarChanged a e))
-  let tags := (w1.slots.zip sl).flatMap fun p => match p with
-    | (some a, some b) => (if a.subs > 0 then ["cal-refresh"] else []) ++ armTags { a with target := 0, st := .inited } b e
-    | _ => []
-  let w2 := { w1 with slots := sl }
-  (w2, withTags tags [stateLine w2 true])
-
 def scanTag (pfx : String) (t : Nat) : Option Nat → List String
   | none => [pfx ++ "-none"]
   | some r =>
     let k := (r - t) / D
     [pfx ++ (if r ≤ t then "-wrapped" else if k = 0 then "-within-24h" else if k < 8 then "-week" else if r - t > far then "-far" else "-weeks")]
 
-def stepWords (w : World) (ws : List String) : Option (World × List String) :=
-  match ws with
-  | ["wk", sod, m, t] => do
-      let sod ← bounded? sod 200000; let m ← mask? m; let t ← bounded? t (U32 - 1)
-      let (a, ok) := initAlarm (fresh .weekly) sod m true
-      if !ok then pure (w, ["B init-rejected", "P init=0"]) else
-      let r := nextWeekly a.sod a.mask t
-      pure (w, withTags (scanTag "wk" t r) [showNext r])
-  | ["os", sod, t] => do
-      let sod ← bounded? sod 200000; let t ← bounded? t (U32 - 1)
-      let (a, ok) := initAlarm (fresh .oneshot) sod [] true
-      if !ok then pure (w, ["B init-rejected", "P init=0"]) else
-      let r := nextOneshot a.sod t
-      pure (w, withTags (scanTag "os" t (some r)) [showNext (some r)])
-  | ["wd", sod, wd, cm, sp, t] => do
-      let sod ← bounded? sod 200000; let wd ← bool? wd; let cm ← bounded? cm 255
-      let sp ← specials? sp; let t ← bounded? t (U32 - 1)
-      let (a, ok) := initAlarm (fresh .workday) sod [] wd
-      if !ok then pure (w, ["B init-rejected", "P init=0"]) else
-      let r := nextWorkday a.sod { weekMask := cm, special := sp } a.wd t
-      pure (w, withTags (scanTag "wd" t r ++ (if sp.isEmpty then [] else ["wd-specials"])) [showNext r])
-  | ["new", i, k] => do
-      let i ← slot? i
-      let c ← (if k == "wk" then some Cls.weekly else if k == "os" then some Cls.oneshot else if k == "wd" then some Cls.workday else none)
-      if (getSlot w i).isSome then none else
-      let w' := setSlot w i (fresh c)
-      pure (w', [stateLine w' true])
-  | ["init", i, sod, m, wd] => do
-      let i ← slot? i; let sod ← intOfString? sod; let m ← mask? m; let wd ← bool? wd
-      if sod < -200000 ∨ sod > 200000 then none else
-      let a ← getSlot w i
-      let (a', ok) := initAlarm a sod m wd
-      let w' := setSlot w i a'
-      pure (w', withTags [if ok then "init-ok" else "init-rejected"] [stateLine w' ok])
-  | ["tz", i, m] => do
-      let i ← slot? i; let m ← intOfString? m
-      if m < -1440 ∨ m > 1440 then none else
-      let a ← getSlot w i
-      let w' := setSlot w i (setTimezone a m)
-      pure (w', [stateLine w' true])
-  | ["en", i] => do
-      let i ← slot? i; let a ← getSlot w i
-      let (a', ok) := enable a w.env
-      let w' := setSlot w i a'
-      pure (w', withTags ((if ok then "enable-ok" else if a.st = .inited then "enable-nomatch" else "enable-rejected") :: armTags a a' w.env)
-                 [stateLine w' ok])
-  | ["dis", i] => do
-      let i ← slot? i; let a ← getSlot w i
-      let (a', ok) := disable a
-      let w' := setSlot w i a'
-      pure (w', withTags [if ok then "disable-ok" else "disable-rejected"] [stateLine w' ok])
-  | ["rf", i] => do
-      let i ← slot? i; let a ← getSlot w i
-      let a' := refresh a w.env
-      let w' := setSlot w i a'
-      pure (w', withTags ((if a.st = .running then "refresh" else "refresh-noop") :: armTags { a with target := 0, st := .inited } a' w.env)
-                 [stateLine w' true])
-  | ["cl", i] => do
-      let i ← slot? i; let a ← getSlot w i
-      let w' := setSlot w i (cleanup a)
-      pure (w', [stateLine w' true])
-  | ["cb", i] => do
-      let i ← slot? i; let a ← getSlot w i
-      let w' := setSlot w i { a with hasCb := true }
-      pure (w', [stateLine w' true])
-  | ["calmask", m] => do
-      let m ← bounded? m 255
-      pure (calUpdate w { w.cal with weekMask := m })
-  | ["calsp", sp] => do
-      let sp ← specials? sp
-      pure (calUpdate w { w.cal with special := sp })
-  | ["adv", d] => do
-      let d ← bounded? d 40000000000
-      if w.wallMs + d > maxWallMs then none else
-      pure (clockOp { w with wallMs := w.wallMs + d, monoMs := w.monoMs + d })
-  | ["mono", d] => do
-      let d ← bounded? d 40000000000
-      pure (clockOp { w with monoMs := w.monoMs + d })
-  | ["wall", v] => do
-      let v ← bounded? v maxWallMs
-      pure (clockOp { w with wallMs := v })
-  | _ => none
+/-- branch tags: how the alarms of w' differ from w (arms, distances) -/
+def armTags (w w' : World) : List String :=
+  ((w.slots.zip w'.slots).flatMap fun p => match p with
+    | (some a, some b) =>
+      if b.st = .running ∧ (a.st ≠ .running ∨ a.target ≠ b.target ∨ a.timer ≠ b.timer) then
+        let r := remainSeconds b w'.env
+        [if r > far then "arm-far" else if r > 86400 then "arm-days" else "arm-near"]
+        ++ (if b.early ∧ !a.early then ["arm-before-last-served"] else [])
+      else if a.st = .running ∧ b.st ≠ .running then ["disarmed"] else []
+    | (some _, none) => ["destroyed"]
+    | _ => [])
+  ++ (if w'.watch.length > w.watch.length then ["subscribed"] else [])
+  ++ (if w'.watch.eraseDups.length < w'.watch.length then ["double-subscription"] else [])
 
-def stepLine (w : World) (line : String) : World × List String :=
-  let ws := words line
-  match ws with
-  | [] => (w, [])
-  | "case" :: _ => ({}, [line.trimAscii.toString])
-  | _ =>
-    match stepWords w ws with
-    | none => (w, ["bad-op"])
-    | some r => r
+inductive POp where
+  | pure (lines : List String) (tags : List String)     -- next-instant probes
+  | world (o : WOp) (tags : List String)
+  | clock (o : WOp)
+  | bad
 
-def main : IO Unit := runDriver ({} : World) stepLine
+def parseOp (w : World) (ws : List String) : POp :=
+  let r : Option POp :=
+    match ws with
+    | ["wk", sod, m, t] => do
+        let sod ← bounded? sod 200000; let m ← mask? m; let t ← bounded? t (U32 - 1)
+        let (a, ok) := initAlarm (fresh .weekly) sod m true
+        if !ok then pure (.pure ["P init=0"] ["init-rejected"]) else
+        let r := nextWeekly a.sod a.mask t
+        pure (.pure [showNext r] (scanTag "wk" t r))
+    | ["os", sod, t] => do
+        let sod ← bounded? sod 200000; let t ← bounded? t (U32 - 1)
+        let (a, ok) := initAlarm (fresh .oneshot) sod [] true
+        if !ok then pure (.pure ["P init=0"] ["init-rejected"]) else
+        let r := nextOneshot a.sod t
+        pure (.pure [showNext (some r)] (scanTag "os" t (some r)))
+    | ["wd", sod, wd, cm, sp, t] => do
+        let sod ← bounded? sod 200000; let wd ← bool? wd; let cm ← bounded? cm 255
+        let sp ← specialsSep? sp ","; let t ← bounded? t (U32 - 1)
+        let (a, ok) := initAlarm (fresh .workday) sod [] wd
+        if !ok then pure (.pure ["P init=0"] ["init-rejected"]) else
+        let r := nextWorkday a.sod { weekMask := cm, special := sp } a.wd t
+        pure (.pure [showNext r] (scanTag "wd" t r ++ (if sp.isEmpty then [] else ["wd-specials"])))
+    | ["cron", s, m, h, dom, mon, dow, t] => do
+        let s ← cronField? s; let m ← cronField? m; let h ← cronField? h
+        let dom ← cronField? dom; let mon ← cronField? mon; let dow ← cronField? dow
+        let t ← bounded? t (U32 - 1)
+        match Cron.parse s m h dom mon dow with
+        | none => pure (.pure ["P init=0"] ["cron-rejected"])
+        | some e =>
+          let r := (Cron.nextCron e t cronHorizon).map w32
+          let tags := match r with
+            | none => ["cron-none"]
+            | some r => [if r ≤ t then "cron-wrapped" else if r - t ≤ 60 then "cron-minute" else if r - t ≤ 86400 then "cron-day"
+                         else if r - t ≤ 31 * 86400 then "cron-month" else if r - t ≤ 366 * 86400 then "cron-year" else "cron-years"]
+              ++ (if e.dom != 4294967294 ∧ e.dow != 127 then ["cron-dom-and-dow"] else [])
+              ++ (if (Cron.civil (r / 86400)).2 == (2, 29) then ["cron-feb29"] else [])
+          pure (.pure [showNext r] tags)
+    | "new" :: i :: k :: rest => do
+        let i ← slot? i
+        let c ← (if k == "wk" then some Cls.weekly else if k == "os" then some Cls.oneshot else if k == "wd" then some Cls.workday else none)
+        let sc ← match rest with
+          | [] => some []
+          | [s] => script? i s
+          | _ => none
+        if (w.get i).isSome then none else
+        pure (.world (.new i c sc) (if sc.isEmpty then [] else ["script"]))
+    | ["init", i, sod, m, wd] => do
+        let i ← slot? i; let sod ← int? sod; let m ← mask? m; let wd ← bool? wd
+        if sod < -200000 ∨ sod > 200000 then none else
+        let _ ← w.get i
+        pure (.world (.init i sod m wd) [])
+    | ["tz", i, m] => do
+        let i ← slot? i; let m ← int? m
+        if m < -1440 ∨ m > 1440 then none else
+        let _ ← w.get i
+        pure (.world (.tz i m) [])
+    | ["en", i] => do
+        let i ← slot? i; let a ← w.get i
+        let ok := (enable a w.env).2
+        pure (.world (.enable i) [if ok then "enable-ok" else if a.st = .inited then "enable-nomatch" else "enable-rejected"])
+    | ["dis", i] => do
+        let i ← slot? i; let a ← w.get i
+        pure (.world (.disable i) [if a.st = .running then "disable-ok" else "disable-rejected"])
+    | ["rf", i] => do
+        let i ← slot? i; let a ← w.get i
+        pure (.world (.refresh i) [if a.st = .running then "refresh" else "refresh-noop"])
+    | ["cl", i] => do let i ← slot? i; let _ ← w.get i; pure (.world (.cleanup i) [])
+    | ["cb", i] => do let i ← slot? i; let _ ← w.get i; pure (.world (.setCb i) [])
+    | ["del", i] => do
+        let i ← slot? i; let a ← w.get i
+        pure (.world (.destroy i) ((if a.st = .running then ["destroy-enabled"] else ["destroy-idle"]) ++
+                                   (if w.watch.contains i then ["destroy-subscribed"] else [])))
+    | ["calmask", m] => do pure (.world (.calMask (← bounded? m 255)) (if w.watch.isEmpty then [] else ["cal-refresh"]))
+    | ["calsp", sp] => do pure (.world (.calSp (← specialsSep? sp ",")) (if w.watch.isEmpty then [] else ["cal-refresh"]))
+    | ["adv", d] => do
+        let d ← bounded? d 40000000000
+        if w.wallMs + d > maxWallMs then none else pure (.clock (.adv d))
+    | ["mono", d] => do pure (.clock (.mono (← bounded? d 40000000000)))
+    | ["wall", v] => do pure (.clock (.wall (← bounded? v maxWallMs)))
+    | _ => none
+  r.getD .bad
+
+structure TAcc where
+  w : World := {}
+  tl : List String := []
+  tags : List String := []
+  err : Option String := none
+  nops : Nat := 0
+
+def expectLine (a : TAcc) (want : String) (what : String) : TAcc :=
+  match a.tl with
+  | l :: rest => if l == want then { a with tl := rest }
+                 else { a with err := some s!"op#{a.nops} {what}: impl=[{l}] model=[{want}]" }
+  | [] => { a with err := some s!"op#{a.nops} {what}: impl=<missing> model=[{want}]" }
+
+/-- consume the `F j <state>` lines of one pass -/
+partial def firePass (a : TAcc) (count : Nat) : TAcc :=
+  match a.tl with
+  | l :: rest =>
+    match words l with
+    | "F" :: j :: more =>
+      if count > 64 then { a with err := some s!"op#{a.nops} more than 64 callbacks in one pass" } else
+      match j.toNat? with
+      | none => { a with err := some s!"op#{a.nops} unparsable callback line [{l}]" }
+      | some j =>
+        match a.w.get j with
+        | none => { a with err := some s!"op#{a.nops} callback of alarm {j} which does not exist (destroyed)" }
+        | some al =>
+          match al.timer with
+          | none => { a with err := some s!"op#{a.nops} callback of alarm {j} which is not armed (disabled, one-shot already fired, never enabled): [{l}]" }
+          | some d =>
+            if d > a.w.monoMs then
+              { a with err := some s!"op#{a.nops} alarm {j} fired EARLY: armed for monotonic {d} ms, now {a.w.monoMs} ms (wall distance to target not waited): [{l}]" }
+            else if !canFire a.w j then
+              { a with err := some s!"op#{a.nops} alarm {j} (deadline {d}) served before an earlier deadline" }
+            else
+              let r := expire al a.w.env
+              let want := showSlot a.w.env (some r.1)
+              let got := " ".intercalate more
+              if got != want then
+                { a with err := some s!"op#{a.nops} callback of alarm {j} sees state impl=[{got}] model=[{want}] (instant served {r.2.1})" }
+              else
+                let e := a.w.env
+                let w' := wFire a.w j
+                let tags := [if e.sec < r.2.1 then "fire-early" else if e.sec > r.2.1 then "fire-late" else "fire-on-time"]
+                  ++ (if r.1.st = .running then (if remainSeconds r.1 e > far then ["rearm-far"] else ["rearm"]) else ["no-rearm"])
+                  ++ (if al.lastServed != 0 ∧ r.2.1 ≤ al.lastServed then ["served-again"] else [])
+                  ++ (if (a.w.script j).isEmpty then [] else ["script-run"] ++ armTags { a.w.put j (some r.1) with } w')
+                  ++ (if count > 0 then ["pass-multi"] else [])
+                firePass { a with w := w', tl := rest, tags := a.tags ++ tags } (count + 1)
+    | _ => a
+  | [] => a
+
+def stepOp (a : TAcc) (line : String) : TAcc :=
+  if a.err.isSome then a else
+  let a := { a with nops := a.nops + 1 }
+  match parseOp a.w (words line) with
+  | .bad => expectLine a "bad-op" "malformed op"
+  | .pure lines tags => lines.foldl (fun acc l => if acc.err.isSome then acc else expectLine acc l "next instant") { a with tags := a.tags ++ tags }
+  | .world o tags =>
+      let (w', ret) := wOp a.w o
+      -- `cl` in the harness re-installs the callback right away (a silent expiry could not be traced)
+      let w' := match o with
+        | .cleanup j => (wOp w' (.setCb j)).1
+        | _ => w'
+      expectLine { a with w := w', tags := a.tags ++ tags ++ armTags a.w w' } (stateLine w' ret) "api result"
+  | .clock o =>
+      let w1 := (wOp a.w o).1
+      let a1 := firePass { a with w := w1 } 0
+      if a1.err.isSome then a1 else
+      if anyDue a1.w then
+        let due := (a1.w.slots.zipIdx.filter fun p => match p.1 with
+          | some al => match al.timer with
+            | some d => d ≤ a1.w.monoMs
+            | none => false
+          | none => false).map (·.2)
+        { a1 with err := some s!"op#{a1.nops} pass ended although alarm(s) {due} are due (monotonic now {a1.w.monoMs}): SKIPPED / not fired; next impl line [{a1.tl.headD "<none>"}]" }
+      else
+        let fired := a1.w.log.length - a.w.log.length
+        expectLine { a1 with tags := a1.tags ++ [if fired = 0 then "pass0" else if fired = 1 then "pass1" else "passN"] }
+          (stateLine a1.w true) "after pass"
+
+structure DS where
+  ops : Array String := #[]
+  tl : Array String := #[]
+
+def finish (d : DS) : List String :=
+  let a : TAcc := d.ops.foldl stepOp ({ tl := d.tl.toList } : TAcc)
+  let tagsLine := if a.tags.isEmpty then [] else ["B " ++ " ".intercalate a.tags.eraseDups]
+  match a.err with
+  | some e => tagsLine ++ ["reject " ++ e]
+  | none =>
+    match a.tl with
+    | [] => tagsLine ++ [s!"ok ops={a.nops} callbacks={a.w.log.length}"]
+    | l :: _ => tagsLine ++ ["reject unexpected extra implementation output: [" ++ l ++ "]"]
+
+def stepLine (d : DS) (line : String) : DS × List String :=
+  let t := line.trimAscii.toString
+  if t.isEmpty then (d, [])
+  else if t.startsWith "case " then ({}, [t])
+  else if t == "end" then ({}, finish d)
+  else if t.startsWith "T " then ({ d with tl := d.tl.push (t.drop 2).toString }, [])
+  else ({ d with ops := d.ops.push t }, [])
+
+def main : IO Unit := runDriver ({} : DS) stepLine
